@@ -470,13 +470,15 @@ func isEmptyValue(v reflect.Value) bool {
 
 // refStruct follows encoding/json's field rules for the shapes the families produce: exported
 // fields, json tag name / "-" / omitempty, untagged embedded structs flattened, tagged embedded
-// structs nested. (Conflicting names are outside the alphabet.)
+// structs nested, and several direct fields given one name dropped (all of them, unless exactly one
+// carries the name in its tag). Conflicts between depths are outside the alphabet.
 func (c *Case) refStruct(v reflect.Value, out map[string]any) error {
 	t := v.Type()
+	dropped := conflictingFields(t)
 	for i := 0; i < t.NumField(); i++ {
 		f := t.Field(i)
 		tag := f.Tag.Get("json")
-		if tag == "-" {
+		if tag == "-" || dropped[i] {
 			continue
 		}
 		name, opts, _ := strings.Cut(tag, ",")
@@ -516,6 +518,56 @@ func (c *Case) refStruct(v reflect.Value, out map[string]any) error {
 		out[name] = e
 	}
 	return nil
+}
+
+// conflictingFields lists the direct fields of t that encoding/json leaves out because another
+// direct field has the same JSON name: all the fields of the group, unless exactly one of them has
+// the name written in its tag (that one wins).
+func conflictingFields(t reflect.Type) map[int]bool {
+	type cand struct {
+		idx    int
+		tagged bool
+	}
+	groups := map[string][]cand{}
+	for i := 0; i < t.NumField(); i++ {
+		f := t.Field(i)
+		tag := f.Tag.Get("json")
+		if tag == "-" || !f.IsExported() {
+			continue
+		}
+		name, _, _ := strings.Cut(tag, ",")
+		if f.Anonymous && name == "" {
+			continue // flattened or promoted: another depth
+		}
+		tagged := name != ""
+		if name == "" {
+			name = f.Name
+		}
+		groups[name] = append(groups[name], cand{i, tagged})
+	}
+	var out map[int]bool
+	for _, g := range groups {
+		if len(g) < 2 {
+			continue
+		}
+		nTagged, winner := 0, -1
+		for _, c := range g {
+			if c.tagged {
+				nTagged++
+				winner = c.idx
+			}
+		}
+		for _, c := range g {
+			if nTagged == 1 && c.idx == winner {
+				continue
+			}
+			if out == nil {
+				out = map[int]bool{}
+			}
+			out[c.idx] = true
+		}
+	}
+	return out
 }
 
 // ------------------------------------------------------------------------------------------
@@ -564,7 +616,7 @@ func Equal(a, b reflect.Value) bool {
 	case reflect.Struct:
 		for i := 0; i < a.NumField(); i++ {
 			f := a.Type().Field(i)
-			if _, skip := serialTag(f.Tag); skip || (!f.IsExported() && !f.Anonymous) {
+			if _, skip := serialTag(f.Tag); skip || (!f.IsExported() && !f.Anonymous) || conflictingFields(a.Type())[i] {
 				continue // never on the wire in plain Go either
 			}
 			if !Equal(a.Field(i), b.Field(i)) {
